@@ -34,6 +34,7 @@ RULE = (
     "try clauses and inside the except / else / cleanup plans. Non-trivial: the wrapped plan was started and either "
     "ended (return, own exception, thrown exception, control exception) with a cleanup/except/else plan configured, "
     "or was closed/halted while active. Distinct = distinct canonical JSON of the case."
+    ' finalize_decorator cases may reuse one decorated plan function (a warm-up invocation is run to completion first).'
 )
 ASSUMPTIONS = [
     "KeyboardInterrupt/SystemExit are never thrown; programs never yield None nor raise non-Exception BaseExceptions",
